@@ -21,9 +21,10 @@ def enc_query(prop, codec, k, r, ln, m=8, n1=3, seed=1, role=1, en=(), data="ful
     if codec == LDPC:
         p["PN1"] = n1
         p["PSEED"] = seed
-        rows, extra_added = ref.ldpc_matrix(k, r, n1, seed)
-        p["HROWS_INIT"] = "{" + ",".join("0x%xu" % x for x in rows_to_masks(rows)) + "}"
-        p["EXP_NULL"] = int(n1 % 2 == 0 and not extra_added)
+        if not (extra and "EXP_REJECT" in extra):
+            rows, extra_added = ref.ldpc_matrix(k, r, n1, seed)
+            p["HROWS_INIT"] = "{" + ",".join("0x%xu" % x for x in rows_to_masks(rows)) + "}"
+            p["EXP_NULL"] = int(n1 % 2 == 0 and not extra_added)
     for e in en:
         p["EN_" + e] = 1
     fb = k * ln * 8
